@@ -241,40 +241,40 @@ CLAIMS['C08'] = dict(
 _ADD = {
  'C01': 'Also: a cached field written only under a condition is reset by _change, populate routines do not go through configuration setters (R3b); '
         'subscriptions are added after the old one is removed (R4); a notification or rebuild stands after the assignment it announces (R1); the '
-        'Notifier never mutates its callback list while iterating it (R7). A builder assigns the properties of the persisting bounding geometry on both sides of every configuration test (R2c); entries are not deleted from the callback list by ascending position.',
+        'Notifier never mutates its callback list while iterating it (R7). A builder assigns the properties of the persisting bounding geometry on both sides of every configuration test (R2c); entries are not deleted from the callback list by ascending position. A builder detaches what the previous configuration attached, not an object a setter has already replaced (R2d).',
  'C02': 'Also: the Gauss quadrature table is rebuilt for every change of its order range (R6); a component carrying a share of the radiance is '
-        'never given zero width; components skipped inside a loop lose their share (loop continue semantics). The multiplet table a line shape stores is a copy of the caller\'s array (R7). The quadrature table is built and read for the same sequence of orders (writer / reader layout agreement). The Zeeman cosine uses the normalised viewing vector (R3c); a write-and-rebuild helper of the quadrature setters is read where it is called.',
- 'C03': 'Also applies the cache/notification rules of C01 to the passive emission models (reported as C03-via-C01). On every path of the total radiated power no term of n_e (n_i (P_line + P_cont) + n_0 P_cx) is dropped. A default integrator shared by all instances and re-bound by each is reported (shared default objects); the search for neutral hydrogen isotopes is not ended by the first missing one. The C01 rules are also applied to plasma/node.pyx, plasma/model.pyx and utility/notify.py.',
+        'never given zero width; components skipped inside a loop lose their share (loop continue semantics). The multiplet table a line shape stores is a copy of the caller\'s array (R7). The quadrature table is built and read for the same sequence of orders (writer / reader layout agreement). The Zeeman cosine uses the normalised viewing vector (R3c); a write-and-rebuild helper of the quadrature setters is read where it is called. doppler_shift and thermal_broadening have their documented closed forms, the viewing vector normalised (R8); the component groups of a ZeemanStructure are each walked once.',
+ 'C03': 'Also applies the cache/notification rules of C01 to the passive emission models (reported as C03-via-C01). On every path of the total radiated power no term of n_e (n_i (P_line + P_cont) + n_0 P_cx) is dropped. A default integrator shared by all instances and re-bound by each is reported (shared default objects); the search for neutral hydrogen isotopes is not ended by the first missing one. The C01 rules are also applied to plasma/node.pyx, plasma/model.pyx and utility/notify.py. RadiationFunction adds f / (4 pi (max - min)) to every bin (R5); the free-free Gaunt factor: definitions of u and gamma^2, region table, table axes (R6); includes the Gauss-quadrature rule of C02.',
  'C04': 'Also: Beam.direction is decided per path (the axis is returned only where the documented field is the axis); the sample points and the beam '
         'direction are taken to plasma coordinates with the same transform; applies the rules of C01 to Beam and the attenuator (C04-via-C01). The attenuation integral is decided algebraically with the cumulative trapezoid as a leaf; sums over charged species visit every species with its own charge (shared rule). A cumulative trapezium rule written out with cumsum is recognised; its weights must be the spacing of the sample axis. The C01 rules are also applied to plasma/node.pyx and utility/notify.py.',
  'C05': 'Also: per-state population lists are created afresh for every excited state (R5); emission, weighted mean and z_effective are decided on '
-        'the values each path returns, whatever the spelling; applies the rules of C01 to the beam models and the composition (C05-via-C01). Nothing an iteration of a species sum computes for itself is written back into a name the next iteration starts from. A loop over a list does not read the variable of the loop that filled it (shared rule). The C01 rules are also applied to plasma/node.pyx and utility/notify.py.',
+        'the values each path returns, whatever the spelling; applies the rules of C01 to the beam models and the composition (C05-via-C01). Nothing an iteration of a species sum computes for itself is written back into a name the next iteration starts from. A loop over a list does not read the variable of the loop that filled it (shared rule). The C01 rules are also applied to plasma/node.pyx and utility/notify.py. BeamMaterial hands the models point, beam direction and observation direction in plasma space (R6); the weight-one coefficient is the rate with donor_metastable == 1 (R7).',
  'C06': 'Also: in multi-file updates the content written to each file is rebuilt on every path of that iteration (R9); tables are stored as given, '
-        'only type conversions between input and stored record (R10). Getters do not memoise across repository paths (R11); nothing is computed inside the write block (R7). No strict-JSON option that can raise inside the write block. The content a getter indexes is the plain mapping json.load returns, not an auto-vivifying RecursiveDict (R6, reading helpers expanded); a file reader memoised with functools is emptied of pre-write content by every writer; a mutable default that is returned is not filled by its callers.',
+        'only type conversions between input and stored record (R10). Getters do not memoise across repository paths (R11); nothing is computed inside the write block (R7). No strict-JSON option that can raise inside the write block. The content a getter indexes is the plain mapping json.load returns, not an auto-vivifying RecursiveDict (R6, reading helpers expanded); a file reader memoised with functools is emptied of pre-write content by every writer; a mutable default that is returned is not filled by its callers. RecursiveDict.from_dict / freeze keep every entry under its key (R12); valid_charge is charge <= atomic number (R8).',
  'C07': 'Also: single-point branches of an interpolant agree with the full-grid branch in axis, argument position, table slice and length test (R7); '
-        'evaluate() is non-negative by construction (R8); memo dictionaries held by the provider are keyed at the granularity the value uses (K). The evaluation coordinate uses the library log10 the grids were built with (a module-level re-definition is reported); the single-point 1D branch is the constant of the single stored table value whatever the spelling of the choice; class-level memos are keyed by the instance fields the value reads. The single-point choice is made on the length of the table it belongs to; __call__ of every rate class forwards its parameters to evaluate() in order (R9). The one-point branch carries the factor applied to the table in the full-grid branch (R7, early-return spelling included); memoised file readers of the repository (shared rule).',
+        'evaluate() is non-negative by construction (R8); memo dictionaries held by the provider are keyed at the granularity the value uses (K). The evaluation coordinate uses the library log10 the grids were built with (a module-level re-definition is reported); the single-point 1D branch is the constant of the single stored table value whatever the spelling of the choice; class-level memos are keyed by the instance fields the value reads. The single-point choice is made on the length of the table it belongs to; __call__ of every rate class forwards its parameters to evaluate() in order (R9). The one-point branch carries the factor applied to the table in the full-grid branch (R7, early-return spelling included); memoised file readers of the repository (shared rule). PhotonToJ is x h c 1e9 / wavelength and its inverse (R10); keys of a mapping are not paired with values in another order (shared rule); includes the repository rules of C06 for the readers.',
  'C08': 'The ADF11 converter is decided by abstract interpretation of its loops (any spelling); axis order by affine index maps; the ADF15 reading '
-        'loops by a structural recogniser; the fixed-width field bounds algebraically. Integer header fields read through a regular expression are captured by a (sub)pattern that can take more than one digit (R7, pattern parsed with re._parser); per-iteration freshness of the objects the converters hand on (R6); BaseFactorConversion.to / inv decided algebraically. The thermal-CX 3D table is the 2D table broadcast along the new axis, decided by applying numpy tile / repeat / reshape to a table of symbols (R8). The repository rules of C06 are applied to the updaters and readers the install routes use (C08-via-C06).',
- 'C10': 'Also: every field a ray-transfer pipeline or pixel processor accumulates into is re-initialised when an observation starts (R5). The voxel map an emitter stores is a copy (R6); steps and period are decided on the values the constructor leaves in the fields. Constructor calls do not pass the mask in the position of the voxel map (swapped arguments of the same kind, part of every -K rule). A store into the spectral array (or a local view of it) accumulates, never overwrites (R2); an integrator does not keep attributes of the material keyed by the material\'s identity when a setter rebinds them (shared rule).',
+        'loops by a structural recogniser; the fixed-width field bounds algebraically. Integer header fields read through a regular expression are captured by a (sub)pattern that can take more than one digit (R7, pattern parsed with re._parser); per-iteration freshness of the objects the converters hand on (R6); BaseFactorConversion.to / inv decided algebraically. The thermal-CX 3D table is the 2D table broadcast along the new axis, decided by applying numpy tile / repeat / reshape to a table of symbols (R8). The repository rules of C06 are applied to the updaters and readers the install routes use (C08-via-C06). The ADF21/22 table assembly is replayed on arrays of symbols when its spelling is not the recognised one (R5).',
+ 'C10': 'Also: every field a ray-transfer pipeline or pixel processor accumulates into is re-initialised when an observation starts (R5). The voxel map an emitter stores is a copy (R6); steps and period are decided on the values the constructor leaves in the fields. Constructor calls do not pass the mask in the position of the voxel map (swapped arguments of the same kind, part of every -K rule). A store into the spectral array (or a local view of it) accumulates, never overwrites (R2); an integrator does not keep attributes of the material keyed by the material\'s identity when a setter rebinds them (shared rule). No sample leaves the loop before the source-change test (R2); a quotient accepted as an integer by a round() test is not converted with int() (shared rule); RayTransferCylinder / RayTransferBox hand the emitter the grid they bound, the bounding primitive inside it by a fraction of a cell (R7).',
  'C11': 'The SART update is decided on the value stored on every path (array roles derived by dataflow); the stacked system by block-matrix abstract '
-        'evaluation (vstack / concatenate / transposes / row selections are interpreted). Values memoised in module-level state by the identity of an array argument are reported (K); the stacked system is not typed after an input array and the data arguments are not changed in place (R5). The convergence exit does not precede x := x_new of that iteration; unknowns are not removed from the system a Tikhonov matrix regularises. No single-precision C declarations (shared rule); a branch that ends the voxel iteration early is followed to its store.',
+        'evaluation (vstack / concatenate / transposes / row selections are interpreted). Values memoised in module-level state by the identity of an array argument are reported (K); the stacked system is not typed after an input array and the data arguments are not changed in place (R5). The convergence exit does not precede x := x_new of that iteration; unknowns are not removed from the system a Tikhonov matrix regularises. No single-precision C declarations (shared rule); a branch that ends the voxel iteration early is followed to its store. invert_svd returns pinv(W) . b (R6); includes the operator rules of C20 for admt_utils.py.',
  'C12': 'The LCFS mask is decided per path (inside exactly when polygon > 0 and psi_n <= 1 were both established); a bare interpolant as psi_normalised '
-        'is a violation; applies the wrapper rules of C13 to the mappers, mask and clamp the equilibrium is built from (C12-via-C13). An array profile is not re-laid out depending on its shape. The zero-field fallback of FluxCoordToCartesian is decided on both in-plane field components (R1).',
+        'is a violation; applies the wrapper rules of C13 to the mappers, mask and clamp the equilibrium is built from (C12-via-C13). An array profile is not re-laid out depending on its shape. The zero-field fallback of FluxCoordToCartesian is decided on both in-plane field components (R1). example_equilibrium passes every stored quantity as the parameter it describes (R3); an optional clamp bound is tested with \'is None\', not for truth (via C13).',
  'C13': 'Also: the polygon mask takes its triangles only from triangulate2d(vertices) (R4); a rotation written out component-wise is compared with '
-        'the documented rotation algebraically and must be guarded off the axis; the floor form of the remainder is analysed like the fmod form. remainder() is analysed with disjunctive tests and an unbounded argument (an argument equal to the period may not pass through); the polygon vertices are only converted, never sliced.',
- 'C14': 'Also: a sample is normalised once, when first computed, and every axis of the cache grid has at least two nodes (R5). Inside the sampling loops only a node\'s own emptiness decides whether it is sampled (every empty node of the stencil is sampled). The nodes of an axis are laid out from the bounds and the resolution of that same axis. data_delta_inv * data_delta = 1 on every path through the constructor (R6).',
- 'C15': 'Also: parenting and the membership update happen for every accepted member (not under another condition). Rules read flattened bodies. Name lookup iterates the member list, not the scenegraph children. A member observer\'s property setter filters the pipelines with the same types as its getter (R5).',
+        'the documented rotation algebraically and must be guarded off the axis; the floor form of the remainder is analysed like the fmod form. remainder() is analysed with disjunctive tests and an unbounded argument (an argument equal to the period may not pass through); the polygon vertices are only converted, never sliced. remainder: chained comparisons and positive-period tests are interpreted (R1); constructor-derived flags of Swizzle3D take their value per selector (R2); \'x or default\' is not used for numeric arguments of the wrappers (K).',
+ 'C14': 'Also: a sample is normalised once, when first computed, and every axis of the cache grid has at least two nodes (R5). Inside the sampling loops only a node\'s own emptiness decides whether it is sampled (every empty node of the stencil is sampled). The nodes of an axis are laid out from the bounds and the resolution of that same axis. data_delta_inv * data_delta = 1 on every path through the constructor (R6). derivatives_array, factorial and find_index of interpolators/utility.pyx (R7).',
+ 'C15': 'Also: parenting and the membership update happen for every accepted member (not under another condition). Rules read flattened bodies. Name lookup iterates the member list, not the scenegraph children. A member observer\'s property setter filters the pipelines with the same types as its getter (R5). Member setters visit every pipeline; origin / direction compose translate(origin) * rotate_basis(direction, up) (R5).',
  'C16': 'Also: a reset of a lazy setting is unconditional (or conditional on "value changed"); calibrate and the spectral settings are decided on '
-        'normalised bodies (loop-carried integration limits, narrowest pixel over all pixels). A value memoised in a field is reset by every mutator of its sources before anything reads it again (R4, shared memo rule); calibrated spectra do not share one buffer (R3); the polychromator range and step are decided as reductions over the filters (an extreme taken from the filter that is extreme in another quantity is a violation). Early returns count as conditions on a reset, and an "unchanged" test on a container kept by reference does not justify skipping a rebuild; every store into the calibrated spectrum is integral / width; the range is taken over every accommodated spectrum. The wavelength range of a filter is read from the sorted array (R5); settings accumulated in a loop over the spectra are reductions over all of them, not the value of the last (R2, reduction loops desugared).',
- 'C17': 'Area, centroid and volume are decided on the values the code computes for polygons of 3, 4 and 5 symbolic vertices on every path. The triangles are computed from the vertex array as stored (R3); arrays handed out are not buffers kept on the instance. The vertices are not reordered after the triangulation. The stored vertex array is the voxel\'s own, never the caller\'s array (R3).',
+        'normalised bodies (loop-carried integration limits, narrowest pixel over all pixels). A value memoised in a field is reset by every mutator of its sources before anything reads it again (R4, shared memo rule); calibrated spectra do not share one buffer (R3); the polychromator range and step are decided as reductions over the filters (an extreme taken from the filter that is extreme in another quantity is a violation). Early returns count as conditions on a reset, and an "unchanged" test on a container kept by reference does not justify skipping a rebuild; every store into the calibrated spectrum is integral / width; the range is taken over every accommodated spectrum. The wavelength range of a filter is read from the sorted array (R5); settings accumulated in a loop over the spectra are reductions over all of them, not the value of the last (R2, reduction loops desugared). The invalidation routine resets its fields unconditionally (R6).',
+ 'C17': 'Area, centroid and volume are decided on the values the code computes for polygons of 3, 4 and 5 symbolic vertices on every path. The triangles are computed from the vertex array as stored (R3); arrays handed out are not buffers kept on the instance. The vertices are not reordered after the triangulation. The stored vertex array is the voxel\'s own, never the caller\'s array (R3). Area / centroid computed by module-level or imported helpers are followed; the sampled triangle corners are decided by value.',
  'C19': 'Lookups are decided by interpreting lookup_element / lookup_isotope on probe arguments for every object (any letter case; element + mass '
-        'number); a field compared through a function of its value while hashed raw is a violation. The lookup interpreter models positional tables filled by the index builders and builtin isinstance tests; the two indices must be distinct objects. A key built by a helper is followed; a component that is an attribute of a field must be unique over the registry (R4).',
+        'number); a field compared through a function of its value while hashed raw is a violation. The lookup interpreter models positional tables filled by the index builders and builtin isinstance tests; the two indices must be distinct objects. A key built by a helper is followed; a component that is an attribute of a field must be unique over the registry (R4). Declared C types of atomic_number / mass_number hold the registry\'s values (R5); index builders are discovered structurally, one dict serving both registries is reported; includes C06-R8 for repository/utility.py.',
  'C20': 'Also: dx derives from x-axis quantities only and dy from y-axis quantities only (axis tags, R1a); shared operator caches are keyed by every '
-        'argument (K). On every returning path of calculate_admt the assembled operator is the theory operator under the conditions of that path (R7); the operators handed in are not changed in place and the operator matrices are not typed after the grid (R8). Per-voxel coefficients scale the rows of the operator matrices (row / column broadcasting distinguished). In-place changes of the operators inside private helpers are followed (R8); a cell count is not taken as the largest grid index + 1 (R1a).',
+        'argument (K). On every returning path of calculate_admt the assembled operator is the theory operator under the conditions of that path (R7); the operators handed in are not changed in place and the operator matrices are not typed after the grid (R8). Per-voxel coefficients scale the rows of the operator matrices (row / column broadcasting distinguished). In-place changes of the operators inside private helpers are followed (R8); a cell count is not taken as the largest grid index + 1 (R1a). Includes the input-preservation rule of C11 for nnls.py / lstsq.py and the sampler rules of C13 for sample2d_points.',
  'C09': 'Also: function-local memo dictionaries inside loops are keyed by every loop-varying operand (R6); no function changes the arrays it is given and no '
-        'result buffer takes the dtype of an input (R7). Profile interpolators are linear (R8). The array drivers compute the result of a grid point from every profile at that same point (R9).',
+        'result buffer takes the dtype of an input (R7). Profile interpolators are linear (R8). The array drivers compute the result of a grid point from every profile at that same point (R9). Includes the wrapper rules of C13 for AxisymmetricMapper and the repository rules of C06 for repository/atomic.py.',
  'C18': 'Also: no path of a distribution function returns a constant (cut-off), the Gaussian beam prefactor matches the width of its own exponent, old laser '
-        'segments are detached by iterating the node\'s own record (R6); memoised and constructor-derived fields follow their sources (R7, shared memo rule). Segment offsets do not come from a floating-point arange; an "unchanged" shortcut in a setter whose field the constructor presets directly is reported. Segment offsets are not generated by a floating-point arange, in a loop or a comprehension (R3).',
+        'segments are detached by iterating the node\'s own record (R6); memoised and constructor-derived fields follow their sources (R7, shared memo rule). Segment offsets do not come from a floating-point arange; an "unchanged" shortcut in a setter whose field the constructor presets directly is reported. Segment offsets are not generated by a floating-point arange, in a loop or a comprehension (R3). No value is written into the density / power arrays outside the bin loop (R5); includes the C01 rules for the laser node.',
 }
 for _p, _t in _ADD.items():
     if _p in CLAIMS:
